@@ -1,2 +1,2 @@
--- stub: replaced by the real driver for model HashText (imports Pyrtma.Drv.HashText)
-def main : IO Unit := pure ()
+import Pyrtma.Drv.HashText
+def main : IO Unit := Pyrtma.Drv.HashText.main
